@@ -29,6 +29,19 @@ def job_fn(job):
         c = tv.compile_template(ct, vectorize=job['vectorize'], step_size=float(DT), solver=job['solver'])
     except tv.CompileError as e:
         return dict(status='compile-raises', error=str(e))
+    if job.get('post_args'):
+        # the function is a function of its arguments: a delay parameter is given another value than the one it was
+        # compiled with (the expected model is the spec with that value)
+        args = list(c.args)
+        for suffix, val in job['post_args'].items():
+            idx = [i for i, k in enumerate(c.keys) if str(k).endswith(suffix)]
+            if len(idx) != 1:
+                return dict(status='compile-raises', error=f"the argument list {list(c.keys)} has {len(idx)} entries "
+                                                           f"for the delay parameter *{suffix}")
+            a0 = np.asarray(tv.tv_to_np(args[idx[0]]))
+            args[idx[0]] = np.zeros_like(a0, dtype=float) + float(val)
+        c.args = tuple(args)
+        spec = job['exp_spec']
     adaptive = job['solver'] != 'euler'
     hp = tvdelay.HistPlugin(DT, adaptive)
     if adaptive:
@@ -39,7 +52,8 @@ def job_fn(job):
         t_sym = symx.real('t')      # integer step counter; kept symbolic (only used as t*dt)
     res = tvspec.validate(spec, c, tally, vectorized=job['vectorize'], plugin=plugin, t_sym=t_sym)
     return dict(status='ok', res=res, tally=tally.as_dict(), src=c.src, keys=list(c.keys),
-                smap={k: str(v) for k, v in c.smap.items()})
+                smap={k: str(v) for k, v in c.smap.items()}, exp_spec=spec if job.get('post_args') else None,
+                history=[f"argument *{k} set to {v} after compilation" for k, v in (job.get('post_args') or {}).items()])
 
 
 def kernel_job(job):
@@ -187,6 +201,15 @@ def run(tier='quick', seed=0, only=None, verbose=False):
             continue
         for v in (True, False):
             jobs.append(dict(key=f"{k}|vec={v}|scipy", spec=s, vectorize=v, solver='scipy'))
+    # two delay parameters of one variable with EQUAL declared values; the second one is then called with another value
+    for k, (s, s2, post) in families.fam_dde_equal_delays():
+        if only and only not in k:
+            continue
+        for v in (True, False):
+            for solver in ('scipy', 'euler'):
+                jobs.append(dict(key=f"{k}|vec={v}|{solver}", spec=s, vectorize=v, solver=solver))
+                jobs.append(dict(key=f"{k}:called-with-other-delay|vec={v}|{solver}", spec=s, exp_spec=s2, post_args=post,
+                                 vectorize=v, solver=solver))
     tvjobs.run_tv_jobs(rep, jobs, verbose=verbose, fn=job_fn)
     kj = []
     for steps in ((4, 6) if tier == 'quick' else (3, 5, 8, 10)):
